@@ -579,6 +579,90 @@ func TestVerif_C19(t *testing.T) {
 	for ep := 0; ep < evid.Pick(6, 60) && rec.Violations() < 10; ep++ {
 		vfC19Connections(rec, ep)
 	}
+	for ep := 0; ep < evid.Pick(4, 40) && rec.Violations() < 10; ep++ {
+		vfC19FloodWhileTimePasses(rec, ep)
+	}
+}
+
+// vfC19FloodWhileTimePasses: the real connection loop (debug logging on and off), virtual time
+// advancing in small steps. One connection floods far beyond its own per-connection limit - every
+// one of those requests is refused - while another client sends well within all its limits and well
+// within the global rate. Refused traffic neither takes global tokens nor disturbs their refill, so
+// every request of the well-behaved client is admitted.
+func vfC19FloodWhileTimePasses(rec *evid.Rec, ep int) {
+	rng := evid.Rng(19191, int64(ep))
+	t0 := time.Unix(1_800_000_000, 0)
+	vfClockSet(t0)
+	rl := DefaultRateLimiterConfig()
+	// budgets: global 100/s (burst 100); per connection 20/s (burst 5); per address unlimited.
+	// The well-behaved client sends 10/s: within its connection's limit. The flooder can be admitted
+	// at most 5 + 20/s: together at most 30/s against a global refill of 100/s - the global bucket
+	// never runs low, so the well-behaved client is admitted every single time.
+	rl.GlobalRequestsPerSecond = 100
+	rl.PerIPRequestsPerSecond, rl.PerIPBurstSize = 1000000, 1000000
+	rl.PerConnectionRequestsPerSecond, rl.PerConnectionBurstSize = 20, 5
+	rl.CleanupInterval = time.Hour
+	fs := refs.New()
+	srv, err := vfNewSrv(fs, ExportOptions{AttrCacheTimeout: 1, EnableRateLimiting: true, RateLimitConfig: &rl})
+	if err != nil {
+		rec.Infra(err.Error())
+		return
+	}
+	defer srv.Close()
+	debug := ep%2 == 0
+	srv.srv.options.Debug = debug
+	flood := srv.pipe("10.0.0.66", 900)
+	good := srv.pipe("10.0.0.7", 901)
+	defer flood.close()
+	defer good.close()
+	admitted := func(p *vfPipe) (bool, bool) {
+		_, raw, err := p.call(vfProgNFS, 3, 0, vfRootCred(), nil)
+		if err != nil {
+			return false, false
+		}
+		rep, derr := rfc.DecodeReply(raw)
+		return derr == nil && !rep.Denied, derr == nil
+	}
+	now := t0
+	refusedFlood, goodSent, goodRefused := 0, 0, 0
+	// 8 virtual seconds: the good client sends every 100 ms; the flooder sends 8-47 requests in
+	// each of those slots
+	for slot := 0; slot < 80; slot++ {
+		nflood := 8 + rng.Intn(40)
+		for i := 0; i < nflood; i++ {
+			// spread over the whole slot (in the odd episodes: bunched at its start)
+			step := 100 * time.Millisecond / time.Duration(nflood+1)
+			if ep%4 >= 2 {
+				step = time.Duration(20+rng.Intn(80)) * time.Microsecond
+			}
+			now = now.Add(step)
+			vfClockSet(now)
+			a, ok := admitted(flood)
+			if !ok {
+				rec.Inconclusive(1)
+				return
+			}
+			if !a {
+				refusedFlood++
+			}
+		}
+		now = t0.Add(time.Duration(slot+1) * 100 * time.Millisecond)
+		vfClockSet(now)
+		a, ok := admitted(good)
+		if !ok {
+			rec.Inconclusive(1)
+			return
+		}
+		goodSent++
+		if !a {
+			goodRefused++
+		}
+	}
+	rec.Eval(goodSent + refusedFlood)
+	if goodRefused > 0 {
+		rec.Violate("C19/connection/client-within-limits-refused-while-a-flood-is-being-refused", fmt.Sprintf("virtual clock, debug logging %v: %d of %d requests of a client sending 10/s (connection limit 20/s, global 100/s) were refused while another connection had %d requests refused by its own limit", debug, goodRefused, goodSent, refusedFlood), map[string]any{"debug": debug, "episode": ep})
+	}
+	rec.Distinct(fmt.Sprintf("flood-while-time-passes|debug=%v|good-refused=%v", debug, goodRefused > 0))
 }
 
 // vfC19Connections: per-connection budgets at the server level (real TCP, frozen clock, so a
